@@ -336,8 +336,102 @@ def case_composed(B, cfg):
     B.eq_array('composed-individual-parameters', psi, psi_ref)
 
 
+def case_composed_cov(B, cfg):
+    """Composed model whose parts carry covariates: value, sensitivities and
+    individual parameters = those of the parts on their own dimensions,
+    parameters *and covariate columns*."""
+    kinds, covs, n_ids = cfg['kinds'], cfg['covs'], cfg['n_ids']
+
+    def part(k, c):
+        m_ = ps.make(k, 1, n_ids)
+        if c:
+            m_ = chi.CovariatePopulationModel(
+                m_, chi.LinearCovariateModel(n_cov=c))
+        return m_
+    parts = [part(k, c) for k, c in zip(kinds, covs)]
+    solo = [part(k, c) for k, c in zip(kinds, covs)]
+    m = chi.ComposedPopulationModel(parts)
+    m.set_n_ids(n_ids)
+    n_cov = sum(covs)
+    chis = [[B.var('chi%d_%d' % (i, c)) for c in range(n_cov)]
+            for i in range(n_ids)]
+    ths, obss, Gs, cols = [], [], [], []
+    c0 = 0
+    for q, (k, c) in enumerate(zip(kinds, covs)):
+        n_p = solo[q].n_parameters()
+        th = [B.var('th%d_%d' % (q, j)) for j in range(n_p)]
+        obs = _obs(B, n_ids, 1, 'x%d_' % q)
+        G = _obs(B, n_ids, 1, 'G%d_' % q)
+        own = [[chis[i][c0 + j] for j in range(c)] for i in range(n_ids)]
+        # support: every (shifted) scale parameter and log-normal value > 0
+        if k != 'pooled':
+            if c:
+                pn = solo[q].get_parameter_names()
+                for i in range(n_ids):
+                    sc = th[1]
+                    for j in range(c):
+                        sc = sc + th[2 + c + j] * own[i][j]
+                    B.assume(sc > 0)
+            else:
+                B.assume(th[1] > 0)
+            if k.startswith('lognormal'):
+                for i in range(n_ids):
+                    B.assume(obs[i][0] > 0)
+        if k == 'pooled':
+            obs = [[th[0] + sum(th[1 + j] * own[i][j] for j in range(c))]
+                   for i in range(n_ids)] if c else \
+                [[th[0]] for i in range(n_ids)]
+        ths.append(th)
+        obss.append(obs)
+        Gs.append(G)
+        cols.append(own)
+        c0 += c
+    theta = [x for th in ths for x in th]
+    obs = [[obss[q][i][0] for q in range(len(kinds))] for i in range(n_ids)]
+    G = [[Gs[q][i][0] for q in range(len(kinds))] for i in range(n_ids)]
+    cov = ps.arr(B, chis)
+
+    def kw(q):
+        return dict(covariates=ps.arr(B, cols[q])) if covs[q] else {}
+    v = m.compute_log_likelihood(ps.arr(B, theta), ps.arr(B, obs),
+                                 covariates=cov)
+    ref = 0
+    for q in range(len(kinds)):
+        ref = ref + solo[q].compute_log_likelihood(
+            ps.arr(B, ths[q]), ps.arr(B, obss[q]), **kw(q))
+    B.eq('composed (covariates): value = sum of parts on their own '
+         'covariate columns', v, ref)
+    score, dpsi, dth = m.compute_sensitivities(
+        ps.arr(B, theta), ps.arr(B, obs), covariates=cov,
+        dlogp_dpsi=ps.arr(B, G))
+    B.eq('composed (covariates): S1 score = value', score, v)
+    dp_ref, dt_ref = [], []
+    for q in range(len(kinds)):
+        s_, dp, dt = solo[q].compute_sensitivities(
+            ps.arr(B, ths[q]), ps.arr(B, obss[q]),
+            dlogp_dpsi=ps.arr(B, Gs[q]), **kw(q))
+        dp_ref.append(dp)
+        dt_ref.append(dt)
+    B.eq_array('composed (covariates): sens d/d individual values', dpsi,
+               np.hstack(dp_ref))
+    B.eq_array('composed (covariates): sens d/d theta', dth,
+               np.hstack(dt_ref))
+    psi = m.compute_individual_parameters(
+        ps.arr(B, theta), ps.arr(B, obs), covariates=cov)
+    psi_ref = np.hstack([solo[q].compute_individual_parameters(
+        ps.arr(B, ths[q]), ps.arr(B, obss[q]), **kw(q))
+        for q in range(len(kinds))])
+    B.eq_array('composed (covariates): individual parameters', psi, psi_ref)
+
+
 def jobs(tier):
     out = []
+    for kinds, covs in ((('gaussian', 'lognormal'), (1, 1)),
+                        (('gaussian', 'gaussian_nc', 'pooled'), (2, 1, 0)),
+                        (('pooled', 'lognormal_nc'), (1, 2)),
+                        (('lognormal', 'gaussian', 'gaussian'), (1, 0, 1))):
+        out.append(('composed_cov', 'case_composed_cov', dict(
+            kinds=list(kinds), covs=list(covs), n_ids=2), {}))
     dims = [1, 2] if tier == 'quick' else [1, 2, 3]
     ids = [1, 2] if tier == 'quick' else [1, 2, 3]
     for kind in ps.KINDS:
@@ -379,7 +473,7 @@ BOUNDS = dict(
     quick='7 model kinds (Gaussian/LogNormal centred and non-centred, '
           'TruncatedGaussian, Pooled, Heterogeneous), n_dim 1..2, n_ids 1..2, '
           '3 parameter layouts, 3 return forms, with/without upstream '
-          'sensitivities; 5 compositions + 4 with a multi-dimensional sub-model in front',
+          'sensitivities; 5 compositions + 4 with a multi-dimensional sub-model in front + 4 whose sub-models carry 1-2 covariates each',
     thorough='n_dim 1..3, n_ids 1..3; all 49 ordered pairs of kinds composed '
              '(mixed dimensionalities)',
     outside='larger n_dim / n_ids; sigma = 0 exactly; covariate models (C07); '
